@@ -24,3 +24,14 @@ func Verify() (r)
   pure
   ensures [C03] r == (W(alphabet()) || W(cmtaddr()))
 @*/
+
+/*@
+module gas
+props C19
+dialect neovm
+
+// C19: the Proxy contract accepts nothing but GAS
+func OnNEP17Payment(from, amount, data)
+  ensures [C19] callingScriptHash == "\xcf\x76\xe2\x8b\xd0\x06\x2c\x4a\x47\x8e\xe3\x55\x61\x01\x13\x19\xf3\xcf\xa4\xd2"
+  ensures [C19] store == old(store) && notifs == old(notifs) && xcalls == old(xcalls)
+@*/
